@@ -417,3 +417,52 @@ Proof.
   destruct (apply_lists F h pl 0 now) as [h1 [| |]] eqn:E; try discriminate.
   intros H. injection H as <-. apply Hgen in E. cbn. destruct E, Hm. split; congruence.
 Qed.
+
+(** * C09: the glob loop and the special verdicts *)
+Definition is_diff (j : status * list record) : bool := match fst j with StDiff => true | _ => false end.
+
+Theorem run_diffs_all_compared : forall jobs,
+  Forall (fun j => fst j = StOk \/ fst j = StDiff) jobs ->
+  fst (run_diffs jobs) = (if existsb is_diff jobs then StDiff else StOk) /\ snd (run_diffs jobs) = map snd jobs.
+Proof.
+  induction jobs as [|[st out] r IH]; intros H; [split; reflexivity|].
+  inversion H as [|? ? Hst Hr]; subst. cbn [fst] in Hst. destruct (IH Hr) as [IH1 IH2].
+  destruct Hst as [-> | ->]; cbn [run_diffs existsb is_diff fst snd map orb];
+    destruct (run_diffs r) as [st' outs] eqn:E; cbn [fst snd] in *; subst; split; try reflexivity;
+    destruct (existsb is_diff r); reflexivity.
+Qed.
+
+(** an error (not a difference) in one file stops the run and is the verdict *)
+Theorem run_diffs_error_stops jobs1 st out jobs2 :
+  Forall (fun j => fst j = StOk \/ fst j = StDiff) jobs1 -> st <> StOk -> st <> StDiff ->
+  fst (run_diffs (jobs1 ++ (st, out) :: jobs2)) = st.
+Proof.
+  induction jobs1 as [|[s0 o0] r IH]; intros H Hn1 Hn2; cbn [app].
+  - destruct st; cbn [run_diffs fst]; try reflexivity; contradiction.
+  - inversion H as [|? ? Hst Hr]; subst. cbn [fst] in Hst. specialize (IH Hr Hn1 Hn2).
+    destruct Hst as [-> | ->]; cbn [run_diffs]; destruct (run_diffs (r ++ (st, out) :: jobs2)) as [st' outs]; cbn [fst] in *; subst;
+      destruct st; try contradiction; reflexivity.
+Qed.
+
+(** a file missing on either side is a reported difference, not a failure *)
+Theorem diff_two_missing fsub cr h l :
+  diff_two fsub cr RdNotExist (RdOk h l) = (StDiff, [RErrMissing 0]) /\
+  diff_two fsub cr (RdOk h l) RdNotExist = (StDiff, [RErrMissing 1]) /\
+  fst (diff_two fsub cr RdNotExist RdNotExist) = StDiff.
+Proof. repeat split. Qed.
+
+(** unequal layouts are an error *)
+Theorem diff_core_layout_mismatch fsub cr sh sl dh dl :
+  layout_eqb (layout_of_arcs (hd_arcs sh)) (layout_of_arcs (hd_arcs dh)) = false ->
+  diff_core fsub cr sh sl dh dl = (StErr, []).
+Proof. intros H. unfold diff_core. rewrite H. reflexivity. Qed.
+
+(** what is printed for a listed slot: archive, instant, both values, dest - src (NaN if either is) *)
+Theorem diff_records_of_archive fsub i sp dp rs rd :
+  length sp = length dp ->
+  diff_records_from fsub i (sp :: rs) (dp :: rd) =
+  map (fun pq => RDiff i (p_time (fst pq)) (p_val (fst pq)) (p_val (snd pq)) (vdiff fsub (p_val (snd pq)) (p_val (fst pq)))) (combine sp dp)
+  ++ diff_records_from fsub (i + 1) rs rd.
+Proof. reflexivity. Qed.
+Lemma vdiff_nan fsub v u : is_nan v = true \/ is_nan u = true -> vdiff fsub v u = NaN.
+Proof. intros [H|H]; unfold vdiff; rewrite H; [reflexivity|rewrite orb_true_r; reflexivity]. Qed.
